@@ -40,7 +40,13 @@ const e2ePasswdA = "root:x:0:0:root:/root:/bin/ash\nbin:x:1:1:bin:/bin:/sbin/nol
 const e2ePasswdB = "  root:x:0:0:root:/root:/bin/sh \r\ndaemon:x:2:2::/dev/null:\nweb:x:33:33:www:/srv/www:/sbin/nologin"
 const e2eGroup = "root:x:0:root\nbin:x:1:root,bin,daemon\nnogroup:x:65533:\n"
 
-var e2ePasswdText = map[string]string{"pw-a": e2ePasswdA, "pw-b": e2ePasswdB}
+// line-ending shapes (class of seeded C13-9): last line unterminated, CRLF, blanks, exactly one unterminated line, empty file
+const e2eGroupB = "  root:x:0:root \r\nbin:x:1:root,bin,daemon\r\nwheel:x:10:root,app"
+const e2eGroupOne = "staff:x:50:web"
+const e2ePasswdOne = "svc:x:101:102:pkg svc:/var/lib/svc:/sbin/nologin"
+
+var e2ePasswdText = map[string]string{"pw-a": e2ePasswdA, "pw-b": e2ePasswdB, "pw-one": e2ePasswdOne, "pw-empty": ""}
+var e2eGroupText = map[string]string{"grp": e2eGroup, "grp-b": e2eGroupB, "grp-one": e2eGroupOne, "grp-empty": ""}
 
 func e2ePackages() []*synthrepo.Pkg {
 	d := func(n string, m int64) synthrepo.File { return synthrepo.File{Name: n, Type: tar.TypeDir, Mode: m} }
@@ -60,6 +66,11 @@ func e2ePackages() []*synthrepo.Pkg {
 		p("pw-a", d("etc", 0o755), f("etc/passwd", 0o644, e2ePasswdA)),
 		p("pw-b", d("etc", 0o755), f("etc/passwd", 0o600, e2ePasswdB)),
 		p("grp", d("etc", 0o755), f("etc/group", 0o644, e2eGroup)),
+		p("grp-b", d("etc", 0o755), f("etc/group", 0o644, e2eGroupB)),
+		p("grp-one", d("etc", 0o755), f("etc/group", 0o644, e2eGroupOne)),
+		p("grp-empty", d("etc", 0o755), f("etc/group", 0o644, "")),
+		p("pw-one", d("etc", 0o755), f("etc/passwd", 0o644, e2ePasswdOne)),
+		p("pw-empty", d("etc", 0o755), f("etc/passwd", 0o644, "")),
 		p("homes", d("home", 0o755), d("home/pre", 0o750), f("home/pre/.profile", 0o644, "p\n"), d("var", 0o755), d("var/lib", 0o755), d("var/lib/lnkhome", 0o711),
 			l("home/lnk", "../var/lib/lnkhome"), f("home/file", 0o644, "not a directory"), l("home/gone", "/no/where")),
 		p("symhome", d("var", 0o755), d("var/home", 0o711), l("home", "var/home")),
@@ -716,8 +727,8 @@ func e2eCase(wr *gal.Writer, w *e2eWorld, c e2eCfg, cli int, note string) {
 		if t, ok := e2ePasswdText[p]; ok {
 			oldP = t
 		}
-		if p == "grp" {
-			oldG = e2eGroup
+		if t, ok := e2eGroupText[p]; ok {
+			oldG = t
 		}
 	}
 	ou, okou := ownUsers(oldP)
@@ -955,6 +966,11 @@ func e2eCorpus(wr *gal.Writer, w *e2eWorld, cli int) {
 			{Type: "permissions", Path: "/usr/lib/app/sub/deep/f", Perm: 0o600, UID: 9, GID: 9}, {Type: "directory", Path: "/usr/lib/app/sub", Perm: 0o750, UID: 1, GID: 2, Recursive: true},
 			{Type: "permissions", Path: "/etc/motd", Perm: 0o400, UID: 9, GID: 9}, {Type: "hardlink", Path: "/srv/motd", Source: "/etc/motd", Perm: 0o644, UID: 1, GID: 1}}})
 	c("empty-file with a trailing slash (C13-F6)", e2eCfg{Packages: base, Paths: []mut{{Type: "empty-file", Path: "/srv/keep/", Perm: 0o640, UID: 5, GID: 6}}})
+	for _, sh := range [][2]string{{"pw-b", "grp-b"}, {"pw-one", "grp-one"}, {"pw-empty", "grp-empty"}, {"pw-a", "grp-b"}, {"pw-b", "grp-one"}} {
+		c("line endings of the shipped passwd and group ("+sh[0]+", "+sh[1]+"): every shipped entry survives next to the configured ones (class of seeded C13-9)",
+			e2eCfg{Packages: []string{"tree", sh[0], sh[1]}, Users: []cuser{{Name: "app", UID: 1000}}, Groups: []cgroup{{Name: "app", GID: 1000, Members: []string{"app"}}, {Name: "wheel", GID: 11}}, RunAs: "svc"})
+		c("line endings, groups only ("+sh[1]+")", e2eCfg{Packages: []string{"tree", sh[1]}, Groups: []cgroup{{Name: "g", GID: 5}}})
+	}
 	c("home with a trailing slash and a mutation below it", e2eCfg{Packages: base, Users: []cuser{{Name: "ts", UID: 5, GID: u32(6), Home: "/srv/ts/"}},
 		Paths: []mut{{Type: "directory", Path: "/srv/ts/d", Perm: 0o700, UID: 5, GID: 6}}})
 }
@@ -969,11 +985,11 @@ func e2eHomeOf(r *gal.Rand, name string) string {
 func e2eRandom(wr *gal.Writer, w *e2eWorld, r *gal.Rand, n int, cli int) {
 	for i := 0; i < n; i++ {
 		c := e2eCfg{Packages: []string{"tree"}}
-		if pw := gal.Pick(r, []string{"", "pw-a", "pw-a", "pw-b"}); pw != "" {
+		if pw := gal.Pick(r, []string{"", "pw-a", "pw-a", "pw-b", "pw-b", "pw-one", "pw-empty"}); pw != "" {
 			c.Packages = append(c.Packages, pw)
 		}
-		if r.Chance(1, 2) {
-			c.Packages = append(c.Packages, "grp")
+		if gp := gal.Pick(r, []string{"", "", "grp", "grp", "grp-b", "grp-b", "grp-one", "grp-empty"}); gp != "" {
+			c.Packages = append(c.Packages, gp)
 		}
 		switch r.Intn(5) {
 		case 0, 1:
